@@ -17,7 +17,7 @@ def sh(cmd, cwd=None, env=None, timeout=2400):
 
 
 for pid in sys.argv[1:]:
-    for d in sorted(glob.glob(os.path.join(V, "benign", pid + "-*"))):
+    for d in sorted(glob.glob(os.path.join(V, "benign", pid + "-" + os.environ.get("RECHECK_ONLY", "") + "*"))):
         mp, pp = os.path.join(d, "meta.json"), os.path.join(d, "patch.diff")
         if not (os.path.isfile(mp) and os.path.isfile(pp)):
             continue
